@@ -65,13 +65,13 @@ def shards(tier, seed):
     if tier == "quick":
         out = [{"kind": "perm", "lo": lo, "hi": lo + 76} for lo in range(0, 301, 76)]
         out += [{"kind": "perm", "lo": n, "hi": n + 1, "big": True} for n in (511, 512, 1000, 4097, 65535, 65536, 65537, 70001)]
-        out += [{"kind": "flip"}, {"kind": "flip_pairs", "lo": 0, "hi": 128}, {"kind": "flip_pairs", "lo": 128, "hi": 256}, {"kind": "swap_runs"}]
+        out += [{"kind": "flip"}, {"kind": "flip_pairs", "lo": 0, "hi": 128}, {"kind": "flip_pairs", "lo": 128, "hi": 256}, {"kind": "swap_runs"}, {"kind": "threads", "rounds": 3}]
         out += [{"kind": "swap_patterns", "maxlen": 10, "part": p, "parts": 4} for p in range(4)]
         out += [{"kind": "swap_random", "n": 5000, "part": p} for p in range(2)]
         out += [{"kind": "pipeline", "n": 2500, "part": p} for p in range(4)]
     else:
         out = [{"kind": "perm", "lo": lo, "hi": lo + 100} for lo in range(0, 5001, 100)]
-        out += [{"kind": "flip"}, {"kind": "swap_runs"}] + [{"kind": "flip_pairs", "lo": lo, "hi": lo + 16} for lo in range(0, 256, 16)]
+        out += [{"kind": "flip"}, {"kind": "swap_runs"}, {"kind": "threads", "rounds": 10}] + [{"kind": "flip_pairs", "lo": lo, "hi": lo + 16} for lo in range(0, 256, 16)]
         out += [{"kind": "swap_patterns", "maxlen": 16, "part": p, "parts": 32} for p in range(32)]
         out += [{"kind": "swap_random", "n": 40000, "part": p} for p in range(16)]
         out += [{"kind": "pipeline", "n": 31250, "part": p} for p in range(32)]
@@ -180,6 +180,36 @@ def run(shard, rec, tier, seed):
             rec.case(("flip", x))
         rec.info["flip_exhaustive"] = "all 256 byte values"
         rec.sample({"flip_msb": [0, 1, 127, 128, 129, 254, 255], "out": list(mon.call("flip_msb", bytes([0, 1, 127, 128, 129, 254, 255])))})
+    elif kind == "threads":
+        # each thread transforms its own buffers (other lengths, other multiples) and compares with the reference
+        from vf.mon import threads as thr
+
+        calls = [0]
+        m = mon.m
+
+        def work(tid, rnd):
+            r = random.Random("C10-thr-%d-%d" % (rnd, tid))
+            out = []
+            for k in range(40):
+                L = 1500 + tid + 2 * r.randrange(0, 4) + (k % 2)
+                x = [r.choice([r.randrange(256), 0, 3, 6, 9, 128, 255]) for _ in range(L)]
+                mult = (3, 7, 2, 255)[tid % 4]
+                for name, want in (("interleave", ref_interleave(x)), ("deinterleave", ref_deinterleave(x)), ("swap_multiples", ref_swap(x, mult)),
+                                   ("flip_msb", [c if c in (0, 128) else c ^ 0x80 for c in x])):
+                    b = bytearray(x)
+                    m.swap_multiples(b, mult) if name == "swap_multiples" else getattr(m, name)(b)
+                    calls[0] += 1
+                    if list(b) != want:
+                        out.append(("pipeline", "%s on a private %d-byte buffer gave a wrong result while other threads were transforming their own buffers" % (name, L), {"f": name, "length": L, "threads": 4}))
+                        return out
+            return out
+        found, errors = thr.hammer(work, 4, shard["rounds"])
+        for e in errors:
+            rec.violation("raises", "a call from a worker thread raised: " + e, {"threads": 4})
+        for mech, msg, case in found[:3]:
+            rec.violation(mech, msg, case)
+        rec.count("calls-from-concurrent-threads", calls[0])
+        rec.case(("threads", shard["rounds"]), n=calls[0])
     elif kind == "flip_pairs":
         # all byte pairs (a, b) with a in lo..hi, alone and embedded: a byte's image never depends on its neighbours
         for a in range(shard["lo"], shard["hi"]):
